@@ -318,7 +318,59 @@ def run_impl(case):
             params=tput_params(t.get("tput")),
         )
         c = case["client"]
-        alloc = driver.TaskAllocation(task=task, client_index_in_task=c["idx"], global_client_index=c["gidx"], total_clients=c["total"])
+        whole = [task]  # the challenge's schedule as the loader / allocator see it
+        if case.get("alloc") is not None:
+            # the task is one leaf of a whole schedule; its TaskAllocation comes from the real Allocator
+            al = case["alloc"]
+            whole = []
+            for e in al["schedule"]:
+                leaves = []
+                for sub in e["tasks"]:
+                    if sub["id"] == al["focus"]:
+                        task.clients = sub["clients"]
+                        task.completes_parent, task.any_completes_parent = sub["cp"], sub["acp"]
+                        leaves.append(task)
+                    else:
+                        leaves.append(track.Task(f"other-{sub['id']}", track.Operation(f"other-op-{sub['id']}", OP_TYPE, params={}), clients=sub["clients"],
+                                                 completes_parent=sub["cp"], any_completes_parent=sub["acp"], iterations=1))
+                whole.append(leaves[0] if e.get("leaf") else track.Parallel(leaves, clients=e["clients"]))
+        if case.get("alloc") is not None:
+            al = case["alloc"]
+            rows = driver.Allocator(whole).allocations
+            picked = [(ri, pi, e) for ri, row in enumerate(rows) for pi, e in enumerate(row)
+                      if isinstance(e, driver.TaskAllocation) and e.task is task and e.client_index_in_task == al["k"]]
+            if len(picked) != 1:
+                raise HarnessError(f"allocation of client {al['k']} of the focus task not found exactly once: {picked}")
+            out["alloc_pick"] = [picked[0][0], picked[0][1]]
+            alloc = picked[0][2]
+        else:
+            alloc = driver.TaskAllocation(task=task, client_index_in_task=c["idx"], global_client_index=c["gidx"], total_clients=c["total"])
+        # the same Task object is read, rewritten and post-processed by the real track processors before it is scheduled
+        for op in case.get("task_ops") or []:
+            try:
+                if op == "read":
+                    task.target_throughput  # noqa: B018 the read is the point
+                    scheduler.run_unthrottled(task)
+                elif op == "test_mode":
+                    from esrally import config
+                    from esrally.track import loader
+
+                    cfg = config.Config()
+                    cfg.add(config.Scope.application, "track", "test.mode.enabled", True)
+                    trk = track.Track(name="c05-track", challenges=[track.Challenge("c05-challenge", default=True, schedule=whole)], corpora=[])
+                    loader.TestModeTrackProcessor(cfg).on_after_load_track(trk)
+                else:
+                    for key, name in (("set_tt", "target-throughput"), ("set_ti", "target-interval")):
+                        if key in op:
+                            if op[key] is None:
+                                task.params.pop(name, None)
+                            else:
+                                task.params[name] = tput_params({"tt": op[key]})["target-throughput"]
+            except exceptions.InvalidSyntax:
+                out["result"] = "InvalidSyntax"
+                return out
+        out["task_after_ops"] = {"warmup_it": task.warmup_iterations, "iters": task.iterations, "warmup_t": task.warmup_time_period,
+                                 "period": task.time_period, "params": {k: (v if isinstance(v, (str, int, bool, type(None))) else repr(v)) for k, v in task.params.items()}}
         try:
             handle = driver.schedule_for(alloc, source)
         except exceptions.InvalidSyntax:
@@ -864,6 +916,9 @@ def run_exec(ctx, case, oracles):
     for mode in ("dbl", "exact"):
         a = dict(case)
         a["mode"] = mode
+        if case.get("alloc") is not None:
+            pick = impl.get("alloc_pick") or [0, 0]
+            a["alloc"] = {"schedule": case["alloc"]["schedule"], "row": pick[0], "pos": pick[1]}
         m = ctx.model("exec", "run", a)
         cms[mode] = canon_model(m)
         if tags is None:
@@ -895,6 +950,46 @@ def _raising(case, out):
 NO_RUN = ("InvalidSyntax", "NoScheduler", "RallyAssertionError")
 
 
+def reported_weight(out):
+    """(weight, unit) the runner reports for this outcome — from the plan, not from what the executor made of it: a result
+    carries its weight also when it says success=False; a raised error carries no weight"""
+    k = out["k"]
+    if k == "tuple":
+        return out["w"], out["unit"]
+    if k == "dict":
+        return (1 if out.get("w") is None else out["w"]), (out.get("unit") or "ops")
+    if k == "none":
+        return 1, "ops"
+    return 0, "ops"
+
+
+def expected_due_times(case, n):
+    """due time (relative to the task start) of the first n requests of the client under the deterministic schedule, derived from
+    target throughput T, clients C and the weights the runner reports: a request is due weight*C/T after its predecessor
+    (weight = 1 request when the target is given in ops/s and the runner reports another unit); everything is due at 0 until a
+    response with a positive weight has been seen.  None when the clause does not apply (unthrottled, Poisson, inconsistent units)."""
+    spec = effective_spec(case)
+    if spec["sched"] not in (None, "deterministic"):
+        return None
+    rd = _tput_reading(case)
+    if rd is None or rd[0] <= 0:
+        return None
+    T, tunit = rd
+    C = spec["clients"]
+    reqs = case["reqs"]
+    units = {reported_weight(q["out"])[1] for q in reqs[:n] if reported_weight(q["out"])[0] > 0}
+    if len(units) > 1 or (tunit != "ops/s" and any(u + "/s" != tunit for u in units)):
+        return None
+    due = [Fraction(0)]
+    w_eff = None
+    for k in range(n - 1):
+        w, u = reported_weight(reqs[k]["out"])
+        if w > 0:
+            w_eff = w if u + "/s" == tunit else 1
+        due.append(due[-1] + (Fraction(w_eff * C) / T if w_eff is not None else 0))
+    return due
+
+
 def oracle_c04(ctx, case, impl):
     """C04 on observable output only: drained samples, tuples yielded by the schedule, endpoint request log"""
     if impl["result"] in NO_RUN or impl["result"].startswith("raised:"):
@@ -919,11 +1014,24 @@ def oracle_c04(ctx, case, impl):
         ctx.fail("wire-count", "runner calls and wire requests differ", impl["runner_calls"], n_wire)
     if len(samples) != min(executed, case["queue_cap"]):
         ctx.fail("sample-count", "number of samples != number of executed requests (minus queue-full drops)", min(executed, case["queue_cap"]), len(samples))
+    due = expected_due_times(case, len(tuples)) if len(tuples) <= len(reqs) else None
+    if due is not None:
+        ctx.count("oracle:due-times-checked")
+        for i, tup in enumerate(tuples):
+            got = Fraction(tup["sched"])
+            ok_ = got == due[i] if exact else abs(got - due[i]) <= Fraction(1, 2**46) * max(due[i], got, Fraction(1, 2**20))
+            if not ok_:
+                ctx.fail("due-time", f"request {i} is not due weight*clients/throughput after its predecessor (reported weights "
+                         f"{[reported_weight(q['out'])[0] for q in reqs[:i]]})", str(due[i]), str(got))
+                break
     late_prev = None
     for i, s in enumerate(samples):
         w0, w1 = Fraction(wire[i][0]), Fraction(wire[i][1])
         tup = tuples[i]
         sched = Fraction(tup["sched"])
+        if due is not None and (due[i] > 0) != (sched > 0):
+            # the request is throttled according to the specification: measure against the specified due time
+            sched = due[i]
         service, processing, latency = Fraction(s["service"]), Fraction(s["processing"]), Fraction(s["latency"])
         if not close(service, w1 - w0, exact):
             ctx.fail("service-span", f"sample {i}: service time is not response - request", str(w1 - w0), str(service))
@@ -974,7 +1082,82 @@ def oracle_c04(ctx, case, impl):
                 ctx.fail("latency-def", f"sample {i}: unthrottled latency != service time", str(service), str(latency))
 
 
+def _read_tput(tp):
+    if not tp:
+        return None
+    c = {"task": {"tput": tp}}
+    return _tput_reading_raw(c)
+
+
+def effective_spec(case):
+    """the task's specification AT SCHEDULE TIME, by an independent reading of what happens to the object after loading:
+    parameter rewrites take effect, reads are irrelevant, --test-mode caps iterations at one per client, drops the warm-up
+    time period, caps the time period at 10 s and raises the target throughput to sys.maxsize in the original unit."""
+    import sys as _sys
+
+    t = dict(case["task"])
+    if case.get("alloc") is not None:
+        for e in case["alloc"]["schedule"]:
+            for sub in e["tasks"]:
+                if sub["id"] == case["alloc"]["focus"]:
+                    t["clients"] = sub["clients"]
+    tp = dict(t.get("tput") or {})
+    for op in case.get("task_ops") or []:
+        if op == "read":
+            continue
+        if op == "test_mode":
+            C = t["clients"]
+            if t["warmup_it"] is not None and t["warmup_it"] > C:
+                t["warmup_it"] = C
+            if t["iters"] is not None and t["iters"] > C:
+                t["iters"] = C
+
+            def numv(spec):
+                return None if spec is None else (Fraction(spec["int"]) if "int" in spec else Fraction(spec["float"]))
+
+            if t["warmup_t"] is not None and numv(t["warmup_t"]) > 0:
+                t["warmup_t"] = {"int": 0}
+            if t["period"] is not None and numv(t["period"]) > 10:
+                t["period"] = {"int": 10}
+            rd = _read_tput(tp)
+            if rd is not None:
+                tp = {"tt": {"kind": "str", "s": f"{_sys.maxsize} {rd[1]}"}}
+        else:
+            for key in ("set_tt", "set_ti"):
+                if key in op:
+                    k = key[4:]
+                    if op[key] is None:
+                        tp.pop(k, None)
+                    else:
+                        tp[k] = op[key]
+    t["tput"] = tp or None
+    return t
+
+
+def effective_client(case):
+    """(global client index, total) of the client under test by an independent reading of the schedule: the clients of one
+    element (a task, or a parallel structure) are numbered in the order of its sub-tasks; total = the element's own client count"""
+    if case.get("alloc") is None:
+        return case["client"]["gidx"], case["client"]["total"], True
+    al = case["alloc"]
+    for e in al["schedule"]:
+        off = 0
+        for sub in e["tasks"]:
+            if sub["id"] == al["focus"]:
+                width = sum(x["clients"] for x in e["tasks"])
+                total = e["clients"] if e.get("clients") is not None else width
+                # an explicit `clients` below the sum of the sub-tasks' clients over-commits clients: outside the clause
+                return off + al["k"], total, total >= width
+            off += sub["clients"]
+    raise HarnessError("focus task not in schedule")
+
+
 def _tput_reading(case):
+    """target throughput at schedule time (see effective_spec)"""
+    return _tput_reading_raw({"task": effective_spec(case)}) if (case.get("task_ops") or case.get("alloc")) and "reqs" in case else _tput_reading_raw(case)
+
+
+def _tput_reading_raw(case):
     """(T, unit) by an independent reading of the well-formed specs the generator produces; None if unthrottled / malformed"""
     tp = case["task"].get("tput")
     if not tp:
@@ -1001,7 +1184,7 @@ def oracle_c05(ctx, case, impl):
     if impl["result"] in NO_RUN or impl["result"].startswith("raised:"):
         return
     exact = bool(case.get("exact"))
-    t = case["task"]
+    t = effective_spec(case)
     t0 = Fraction(case["t0"])
     reqs, tuples, samples, wire = case["reqs"], impl["tuples"], impl["samples"], impl["wire"]
     natural = (impl["result"] == "ok" and case["cancel_at"] is None and case["complete_at"] is None
@@ -1113,9 +1296,9 @@ def oracle_c05(ctx, case, impl):
     # ramp-up
     ramp = numv(t["ramp_up"])
     if ramp and wire:
-        c = case["client"]
-        delay = ramp * c["gidx"] / c["total"]
-        fg = first_gap(reqs[0])
+        gidx, total, in_clause = effective_client(case)
+        delay = ramp * gidx / total
+        fg = first_gap(reqs[0]) if in_clause else None
         first = t0 + delay + Fraction(reqs[0]["gen"]) + (fg or 0)
         if fg is not None and wire[0] is not None and not close(Fraction(wire[0][0]), first, exact):
             ctx.fail("ramp-up", "first request is not issued ramp-up*i/total after the task start", str(first), str(wire[0][0]))
